@@ -12,40 +12,68 @@ HARNESS_FLAGS = ('-DC20_VERIF_DIR="%s"' % C.VERIF, '-DC20_REPO_DIR="%s"' % C.REP
 TIMEOUT = {"quick": 900, "thorough": 3 * 3600, "search": 1800}
 RULE = "see stats"
 PARTIAL = [
-    "tokenisation is not modelled: Ispd.write/Ispd.read work on records (one per logical line); that export.cpp's "
-    "iostream output and coloquinte.py's split()/replace(':',' ') produce/consume exactly those records is established by "
-    "the two correspondence streams (export records vs Ispd.write; read_ispd result vs Ispd.read, including hand-mutated "
-    "files), not proved",
-    "the reader runs against a pure-Python stand-in for the compiled module (pybind11 is absent): the stand-in's Circuit "
-    "mirrors the C++ setters/addNet/rowHeight by hand; its enums are built from the text of module.cpp and the header",
+    "text_refines_records_partial (text-level reader on the exact exported text = record-level reader on the exported "
+    "records, same circuit or same Python exception) is proved for every circuit whose pin offsets print with at most "
+    "six significant digits (|2*offset - size| < 2*10^5; part of the format's domain); beyond that bound (rounding to six "
+    "digits, scientific notation: Ispd.Text.fmtG6 vs float()) text_refines_records_full_statement is supported only by the "
+    "`big` stream (whole-file text comparison + re-read circuits), not proved",
+    "that Ispd.Text.writeText/auxText are the text export.cpp emits, and that Ispd.Text.readText/readIspd/loadPlacement/"
+    "writePlacementText are what coloquinte.py does, is established by correspondence (whole file texts compared line by "
+    "line with the C++ output; the package's reader run on exported files, on record-mutated files and on textually "
+    "mutated files - comments, blank/padded lines, dropped/extra/junk tokens, glued colons, changed case, duplicated or "
+    "missing headers, damaged .aux files, opened by .aux path / bare prefix / directory), not proved from the sources",
+    "compressed files (.gz/.xz/.lzma, and the compressed-sibling fallback of _open_file) are outside the model "
+    "(Err.compressed); never generated",
+    "Python str/float/int details outside the model: Unicode digits, '_' separators in float(), inf/nan literals, "
+    "binary64 rounding of float() (values at hand are exact), int() strings above 4300 digits; os.path.normpath is "
+    "modelled for trailing slashes only; lines are assumed free of '\\r' (universal-newline translation not modelled); "
+    "text encodings",
+    "roundtrip_files holds for prefixes without white space that are absolute or have no directory part; for a relative "
+    "prefix with a directory part the exported .aux file does not lead back to the data files "
+    "(theorem relative_prefix_with_directory_lost; the real code raises RuntimeError - reported as a finding, the harness "
+    "only exports to absolute prefixes)",
+    "load_write_placement assumes pairwise distinct cell names that are single tokens without ':' not starting with '#' "
+    "(true for the names export.cpp writes); on a TypeError from a cell without a line the partial update of x/y is not "
+    "observable in the model (result is the exception only)",
+    "the reader runs against a pure-Python stand-in for the compiled module (pybind11 is absent): the stand-in mirrors "
+    "coloquinte::Circuit/Rectangle/Row under their C++ member names by hand (setters' size checks, addNet, rowHeight, "
+    "check); every Python-visible enum value, property, attribute, method and constructor of the stand-in is generated at "
+    "import time from module.cpp through the same scanner as Gen.Bindings, so a wrong binding changes what the reader "
+    "does and shows up as a concrete round-trip failure",
     "bindings_faithful/bindings_declared are statements about the text of module.cpp and the AST of coloquinte.hpp "
-    "(regenerated each run); pybind11's own semantics (def_property, enum_.value) are assumed",
-    "Python float()/round() and iostream '<<' of a double are modelled exactly (Rat, ties-to-even, 6 significant digits); "
+    "(regenerated each run); pybind11's own semantics (def_property, enum_.value) are assumed; default values of "
+    "py::arg(...) = literal are not in the table",
     "values are assumed to fit C++ int and to be exact in binary64 (|v| < 2^31)",
-    ".nodes lines with fewer than three tokens (dummy cells), .pl lines with fewer than four tokens, pin lines without "
-    "offsets and .scl blocks with missing keys are outside the record model (export.cpp never writes them)",
     "the property's own wording of the domain ('sizes below 10^5') is sufficient only for pins inside their cell "
     "(theorem pin_inside_small_cell_ok); the theorems use the exact condition |2*offset - size| < 2*10^5 "
     "(precision_bound_needed shows a failure just outside it)",
 ]
 ASSUMPTIONS = [
-    "CPython 3 semantics of str.split, int(), float(), round() (ties to even), dict (last key wins), % (floored) as modelled",
-    "glibc/libstdc++ formatting of double with precision 6 (%g, exact decimal expansion, ties to even) as modelled by Ispd.fmt6; "
-    "exercised by the `big` stream beyond the theorem's domain",
-    "pybind11 semantics: .value(name, enumerator), def_readwrite/def_property bind exactly the named member/functions; "
+    "CPython 3 semantics of str.strip/split/startswith/replace/lower (ASCII), int(), float(), round() (ties to even), "
+    "dict (last key wins), % (floored), os.path.join/dirname/basename (POSIX) as modelled in Model/IspdText.lean",
+    "glibc/libstdc++ formatting of int and of double with precision 6 (%g, exact decimal expansion, ties to even, "
+    "scientific notation from 10^6) as modelled by Ispd.Text.showInt/fmtG6; compared as text on every exported file, "
+    "including the `big` stream beyond the theorem's domain",
+    "pybind11 semantics: .value(name, enumerator), def_readwrite/def_property/def bind exactly the named member/functions; "
     "std::runtime_error -> RuntimeError, failed argument conversion -> TypeError",
-    "harness/pystub/coloquinte_pybind.py mirrors coloquinte::Circuit's constructor defaults, setters, addNet and rowHeight",
+    "harness/pystub/coloquinte_pybind.py mirrors coloquinte::Circuit's constructor defaults, setters, addNet, rowHeight "
+    "and check under their C++ names",
 ]
 EXTRA_TRUSTED = [
     "python3 (CPython) running pycoloquinte/coloquinte.py unmodified against harness/pystub/coloquinte_pybind.py",
-    "tools/gen/Bindings.py: strict text scan of module.cpp (unknown syntax is an error) + clang-14 AST of coloquinte.hpp",
+    "tools/gen/Bindings.py: strict text scan of module.cpp (unknown syntax is an error) + clang-14 AST of coloquinte.hpp "
+    "(also imported by the stand-in module)",
 ]
-LEVEL_TEXT = ("Lean 4 theorems over a record-level executable model of Circuit::exportIspd (export.cpp) and of "
-              "Circuit.read_ispd (coloquinte.py): for every circuit in an explicit decidable domain read(write c) succeeds "
-              "and agrees with c on sizes, fixed flags, positions, orientations, connectivity, pin offsets and rows, hence "
-              "on HPWL; the binding table of module.cpp is regenerated on every run and the naming rules are decided on it; "
-              "both halves of the model are tied to the code by correspondence streams (exported records; re-read circuits, "
-              "including mutated and out-of-domain files)")
-LEVEL_NOTE = ("Trusted: Lean kernel, the record-level abstraction (tokenisation tied by correspondence only), CPython, the "
-              "pure-Python stand-in for the pybind module, the text scanner for module.cpp.")
-TECHNIQUE = "Lean 4 proof (round-trip identity by structural induction) + decide over a generated table + two-sided correspondence"
+LEVEL_TEXT = ("Lean 4 theorems over an executable model of Circuit::exportIspd (export.cpp) and of Circuit.read_ispd / "
+              "load_placement / write_placement (coloquinte.py) at two levels: the exact text of the five files (header lines, "
+              "separators, `terminal`, `: N`, NetDegree/pin lines, CoreRow blocks, iostream number formatting) with the reader's "
+              "line-by-line tokenisation, int()/float() parsing, .aux selection and _open_file on a file system; and records. "
+              "Proved: the text level refines the record level on every circuit whose offsets print in six digits; for every "
+              "circuit in an explicit decidable domain reading back the exported text/files succeeds and agrees with the circuit "
+              "on sizes, fixed flags, positions, orientations, connectivity, pin offsets and rows, hence on HPWL; "
+              "load_placement(write_placement(c)) restores all positions and orientations; the binding table of module.cpp is "
+              "regenerated on every run and the naming rules are decided on it.  Both levels are tied to the code by "
+              "correspondence streams (whole file texts; re-read circuits on exported, record-mutated and text-mutated files).")
+LEVEL_NOTE = ("Trusted: Lean kernel, the correspondence between model and code (text compared on explored inputs), CPython, "
+              "the C++-named mirror inside the stand-in for the pybind module, the text scanner for module.cpp.")
+TECHNIQUE = "Lean 4 proof (text-to-record refinement and round-trip identity by structural induction) + decide over a generated table + two-sided correspondence on whole file texts"
